@@ -34,7 +34,9 @@ FORMS = ["conc", "next", "seq", "var", "value", "push", "pushprop", "slice", "el
          # back through a typed view (lsig_view: the local signal has another vector kind, the view restores the source kind)
          "linit_var_x", "linit_sig_x", "ltemp", "ltemp_x", "lsig_view", "lvar_view",
          # whole-array / element assignment between std.Array objects whose element types are the source and target type
-         "sarr_whole", "sarr_elem"]
+         "sarr_whole", "sarr_elem",
+         # select_with WITHOUT default: the last alternative is emitted as `when others`
+         "selnd", "selnd_seq"]
 LIT_FORMS = ["conc", "seq", "var", "push", "init", "slice", "port", "ret", "ifexp", "view", "merge2", "ret2", "pdefault", "linit_var", "ctor"]
 
 
@@ -58,10 +60,13 @@ def is_vec(t):
     return t[0] in ("BitVector", "Unsigned", "Signed")
 
 
-LITS = [("int", v) for v in (-2, -1, 0, 1, 2, 3, 4, 7, 8)] + [("Null",), ("Full",), ("True",), ("False",)]
+LITS = [("int", v) for v in (-2, -1, 0, 1, 2, 3, 4, 7, 8)] + [("Null",), ("Full",), ("True",), ("False",)] + \
+       [("str", b) for b in ("1", "10", "101", "0110", "11010", "100110")]
 
 
 def lit_src(l):
+    if l[0] == "str":
+        return repr(l[1])
     return str(l[1]) if l[0] == "int" else l[0]
 
 
@@ -69,6 +74,9 @@ def must_reject(s, t):
     """s: type tuple or literal tuple.  Returns True / False (must be value preserving if accepted; acceptance not demanded)"""
     if s[0] in ("Null", "Full"):
         return False
+    if s[0] == "str":
+        # bit string literal: a width-mismatched BitVector assignment is an error; Bit/bool targets are not covered
+        return is_vec(t) and len(s[1]) != t[1]
     if s[0] == "Integer":
         # run-time integer (Signal[int]): representability is not statically decidable; the statement lists integer
         # LITERALS only.  Accepted designs are checked for well-typed VHDL and value preservation of in-range values.
@@ -121,6 +129,10 @@ def expected(s, raw, t):
         return 0
     if s[0] == "Full":
         return mt
+    if s[0] == "str":
+        if not is_vec(t):
+            return "open"
+        return int(s[1], 2) if len(s[1]) == wt else None
     if s[0] in ("True", "False"):
         v = 1 if s[0] == "True" else 0
         if not is_vec(t) or t[0] == "Unsigned":
@@ -161,7 +173,7 @@ HDR = "from cohdl import std, Entity, Port, Bit, BitVector, Unsigned, Signed, Si
 
 
 def render(s, t, form):
-    S = lit_src(s) if s[0] in ("int", "Null", "Full", "True", "False") else None
+    S = lit_src(s) if s[0] in ("int", "Null", "Full", "True", "False", "str") else None
     T = tsrc(t)
     src = S if S is not None else "self.src"
     wt = width(t)
@@ -226,6 +238,8 @@ def render(s, t, form):
               seq, "        def proc():", "            nonlocal adst", f"            asrc[0] <<= {src}", f"            asrc[1] <<= {src}"]
         L += ["            adst <<= asrc"] if form == "sarr_whole" else ["            adst[0] <<= asrc[0]", "            adst[1] <<= asrc[1]"]
         L += ["            self.tgt <<= adst[1]"]
+    elif form in ("selnd", "selnd_seq"):
+        L += [con if form == "selnd" else seq, "        def logic():", f"            self.tgt <<= cohdl.select_with(self.c, {{False: self.alt, True: {src}}})"]
     elif form == "ltemp":
         L += [seq, "        def proc():", f"            tmp = Temporary[{T}]({src})", "            self.tgt <<= tmp"]
     elif form in ("lsig_view", "lvar_view"):
@@ -278,13 +292,14 @@ def applicable(s, t, form):
     if form == "elem":
         return t == ("Bit",)
     if form == "init":
-        return s[0] in ("int", "Null", "Full", "True", "False")
+        return s[0] in ("int", "Null", "Full", "True", "False", "str")
     if form in ("view", "view_seq"):
         return is_vec(t)
     if form in ("merge2", "ret2"):
-        return t[0] in ("Unsigned", "Signed") and t[1] >= 2
+        # (a bit string literal in a merge takes the type of the other, narrower arm: not a width mismatch)
+        return t[0] in ("Unsigned", "Signed") and t[1] >= 2 and s[0] != "str"
     if form in ("pdefault", "ctor"):
-        return s[0] in ("int", "Null", "Full", "True", "False")
+        return s[0] in ("int", "Null", "Full", "True", "False", "str")
     if form.endswith("_x"):
         # expression sources: objects of vector / Bit type (`x | x` has the type and value of x)
         if s[0] not in ("Bit", "BitVector", "Unsigned", "Signed"):
@@ -322,8 +337,8 @@ def analyse(s, t, form):
     if form.endswith("_x"):
         form = form[:-2]
     clocked = form in ("seq", "var", "value", "push", "pushprop", "linit_sig", "linit_var", "view_seq", "pdefault", "linit_var_merge",
-                       "ret", "ret2", "ret_null", "ltemp", "lsig_view", "lvar_view", "sarr_whole", "sarr_elem")
-    is_lit = s[0] in ("int", "Null", "Full", "True", "False")
+                       "ret", "ret2", "ret_null", "ltemp", "lsig_view", "lvar_view", "sarr_whole", "sarr_elem", "selnd_seq")
+    is_lit = s[0] in ("int", "Null", "Full", "True", "False", "str")
     sim = d.sim(init=dict(clk=0, c=1))
     for raw in src_values(s):
         if s == ("Integer",) and expected(s, raw, t) == "open":
@@ -381,7 +396,7 @@ def analyse(s, t, form):
             if g != 0:
                 out["problems"].append(("value", f"merge with c=0: target {g}, expected Null (0)"))
                 break
-        if form in ("ret", "ifexp"):
+        if form in ("ret", "ifexp", "selnd", "selnd_seq"):
             # other branch: alt must pass through unchanged
             for a in range(1 << wt):
                 sim.set_many({"c": 0, "alt": a})
@@ -420,7 +435,7 @@ def main(run: Run):
             run.tool_error(f"worker: {res[-500:]}")
             continue
         for s, t, f, r in res:
-            sname = lit_src(s) if s[0] in ("int", "Null", "Full", "True", "False") else tsrc(s)
+            sname = lit_src(s) if s[0] in ("int", "Null", "Full", "True", "False", "str") else tsrc(s)
             ident = f"{sname}->{tsrc(t)}/{f}"
             st = r["status"]
             run.count("designs_" + st)
